@@ -30,6 +30,9 @@ type FailCase struct {
 	MockID    string   `json:"mock_id"`
 	Ops       []Op     `json:"ops,omitempty"`
 	Program   *Program `json:"program,omitempty"`
+	Mode      string   `json:"mode,omitempty"`     // "sched": Program ran under the harness-owned scheduler with Schedule
+	Schedule  []int    `json:"schedule,omitempty"` // the choice made at every scheduling decision with >1 enabled task
+	Trace     []string `json:"trace,omitempty"`
 	Violation *V       `json:"violation,omitempty"`
 }
 
@@ -127,9 +130,9 @@ func nonTrivial(prop string, f map[string]bool) bool {
 	case "C04":
 		return (f["three-calls-one-method"] && f["snapshot-nonempty"]) || f["nested"] || f["panic"]
 	case "C05":
-		return f["two-callers-one-method-with-reader"]
+		return f["two-callers-one-method-with-reader"] || f["preempted"]
 	case "C06":
-		return f["reenter-same-method"] || f["reset-inside-callback"] || f["parked-callback-others-finished"]
+		return f["reenter-same-method"] || f["reset-inside-callback"] || f["parked-callback-others-finished"] || f["preempted"]
 	case "C07":
 		return f["nilfunc-results-after-call"]
 	case "C08":
@@ -181,7 +184,43 @@ func Main(t *testing.T) {
 		var vs []V
 		var flags map[string]bool
 		var err error
-		if prop == "C05" {
+		if os.Getenv("VP_MODE") == "sched" {
+			// harness-owned schedules: 2-3 tasks x <=4 operations, rapid draws which enabled task proceeds
+			prog := &Program{Mock: mi, WithResets: def.Resets, BlockFirst: prop == "C06" && d.chance(50)}
+			ng := 2 + d.intn(2)
+			for g := 0; g < ng; g++ {
+				n := 1 + d.intn(4)
+				var ops []Op
+				for i := 0; i < n; i++ {
+					op := Op{M: d.intn(nm), Seed: d.seed(), Kind: "call", Behav: "ret"}
+					k := d.intn(100)
+					switch {
+					case k < 25:
+						op.Kind = "read"
+					case k < 35 && def.Resets:
+						op.Kind = "reset"
+					case k < 42 && def.Resets:
+						op.Kind = "resetall"
+					}
+					if d.chance(65) {
+						op.M = 0
+					}
+					ops = append(ops, op)
+				}
+				if g == 0 && prog.BlockFirst {
+					ops = append([]Op{{M: 0, Seed: d.seed(), Kind: "call", Behav: "ret"}}, ops...)
+				}
+				prog.Goroutines = append(prog.Goroutines, ops)
+			}
+			var schedule []int
+			var trace []string
+			vs, flags, trace, err = RunScheduled(def, prog, func(n int) int {
+				c := d.intn(n)
+				schedule = append(schedule, c)
+				return c
+			})
+			fc.Program, fc.Mode, fc.Schedule, fc.Trace = prog, "sched", schedule, trace
+		} else if prop == "C05" {
 			prog := &Program{Mock: mi, WithResets: def.Resets && d.chance(35)}
 			ng := 2 + d.intn(5)
 			for g := 0; g < ng; g++ {
@@ -326,7 +365,18 @@ func Replay(t *testing.T) {
 		var err error
 		if fc.Program != nil {
 			// schedule-dependent: repeat (the race detector halts the process on the first report)
-			for i := 0; i < 25 && len(vs) == 0 && err == nil; i++ {
+			if fc.Mode == "sched" {
+				k := 0
+				vs, _, _, err = RunScheduled(def, fc.Program, func(n int) int {
+					c := 0
+					if k < len(fc.Schedule) {
+						c = fc.Schedule[k] % n
+					}
+					k++
+					return c
+				})
+			}
+			for i := 0; fc.Mode != "sched" && i < 25 && len(vs) == 0 && err == nil; i++ {
 				if fc.Prop == "C06" {
 					vs, _, err = RunSchedProgram(def, fc.Program)
 				} else {
